@@ -51,6 +51,8 @@ def strategy(tier):
         st.tuples(st.just('minimize')),
         st.tuples(st.just('other'), d, st.integers(0, 2)),
         st.tuples(st.just('open_commit'), i, d),
+        st.tuples(st.just('read_c'), i),
+        st.tuples(st.just('empty_create'), i),
         st.tuples(st.just('foreign'), st.integers(0, 5), d, st.sampled_from(['finish', 'finish', 'abort', 'vote-abort'])),
     ).map(list)
     free = st.lists(op, min_size=3, max_size=n)
@@ -321,6 +323,39 @@ class BlobWorld:
             self.node_work = op[1]
         elif k == 'read':
             self.check_writer('read', ['b%d' % op[1]])
+        elif k == 'read_c':
+            # the committed file itself (mode 'c', committed()): only without uncommitted changes, and then exactly
+            # the committed bytes
+            from ZODB.blob import BlobError
+            name = 'b%d' % op[1]
+            b = self.blob(name)
+            if b is None:
+                return
+            for how in ('open-c', 'committed'):
+                try:
+                    if how == 'open-c':
+                        with b.open('c') as f:
+                            got = f.read()
+                    else:
+                        with open(b.committed(), 'rb') as f:
+                            got = f.read()
+                except BlobError:
+                    got = 'BlobError'
+                want = 'BlobError' if name in self.work or name not in self.committed else self.committed[name]
+                if got != want:
+                    self.fail('committed-read', 'mismatch', '%s of %s gives %r ; the model says %r' % (
+                        how, name, got if isinstance(got, str) else got[:40], want if isinstance(want, str) else want[:40]))
+                    return
+            self.labels.add('committed-file-read')
+        elif k == 'empty_create':
+            # a blob that is never opened is stored with an empty file
+            name = 'b%d' % op[1]
+            if self.view(name) is not None:
+                return
+            self.conn.root()[name] = Blob()
+            self.work[name] = b''
+            self.created.add(name)
+            self.labels.add('blob-created-without-data')
         elif k == 'observe':
             self.check_observer('observe', op[1])
         elif k == 'commit':
